@@ -113,7 +113,7 @@ def c02(tier, seed):
     q = tier == "quick"
     units = cfg_shards("rstates", "rstates", NR, seed,
                        dict(paths=os.path.join(GEN, "reader_paths.ndjson"), ops="c02", full=0 if q else 1,
-                            images=1 if q else 3),
+                            images=2 if q else 4),
                        pick=pick_cfgs(NR, 12, seed) if q else None)
     units += shards("hist", "hist", 6 if q else 32, seed, dict(histories=5 if q else 20, len=40))
     return dict(
@@ -168,7 +168,7 @@ def c06(tier, seed):
         rule="length functions (every table variant, enum dispatch) logged as len events and compared by TLC "
              "with Codes!CLen; the value returned by each write and the advance of each read are compared with "
              "the same closed form in the write/read events. distinct = (family, parameter, value).",
-        units=code_units("alone", tier, seed + 1) + code_units("concat", tier, seed + 1, 8, 30),
+        units=code_units("alone", tier, seed + 1) + code_units("concat", tier, seed + 1, 6, 30),
     )
 
 
@@ -179,9 +179,9 @@ WP = os.path.join(GEN, "writer_paths.ndjson")
 def c05(tier, seed):
     q = tier == "quick"
     units = cfg_shards("tables", "tables", NR, seed, dict(full=0 if q else 1, frac=16 if q else 1),
-                       pick=pick_cfgs(NR, 14, seed) if q else None)
-    units += code_units("alone", tier, seed + 2, 8, 30)        # encode / length tables: every entry
-    units += code_units("concat", tier, seed + 2, 8, 30)       # defaults and every table option on read
+                       pick=pick_cfgs(NR, 12, seed) if q else None)
+    units += code_units("alone", tier, seed + 2, 6, 30)        # encode / length tables: every entry
+    units += code_units("concat", tier, seed + 2, 6, 30)       # defaults and every table option on read
     return dict(
         needs_gen=True,
         mc=[MC_CODES] + [m for m in reader_mcs("quick") if "_d1_" in m["name"]],
